@@ -89,6 +89,36 @@ def _mut_work(items):
     return n, nontriv, fails
 
 
+DIRECTIVE_JUNK = [")", "(", "}", "@", "`", "\\", "/* c */", "// c", "'", '"', "x", "1 2 x"]
+
+
+def _dir_work(items):
+    """Non-token text on a #line / linemarker line (after the line number, the
+    file name or the flags) must be rejected too: a directive line is not
+    #pragma text."""
+    n = 0
+    fails = []
+    for origin, text in items:
+        toks = _split_tokens(text)
+        if not toks or len(toks) > 12:
+            continue
+        for g in range(len(toks) + 1):
+            for head in ('# 7 "g.h"', '# 7 "g.h" 1 3', '#line 7 "g.h"', "#line 7", "# 7"):
+                for junk in DIRECTIVE_JUNK:
+                    if junk in ("1 2 x",) and '"' not in head:
+                        continue
+                    if junk in ('"',) and '"' not in head:
+                        pass
+                    line = head + " " + junk
+                    mt = " ".join(toks[:g]) + "\n" + line + "\n" + " ".join(toks[g:]) + " "
+                    n += 1
+                    if core.parse_outcome(mt)[0] == "ok":
+                        kind = "name" if '"' in head else "number"
+                        fails.append((f"accepted-junk-on-directive:after-{kind}:{junk[:2]}", {"text": mt, "origin": text},
+                                      "non-token text on a line directive accepted"))
+    return n, fails
+
+
 def run(tier):
     R = core.Run(PID, tier, "model_checking")
     quick = tier == "quick"
@@ -116,6 +146,9 @@ def run(tier):
     pool = progpool.build_pool(tier, parts=("A", "M", "K1") if quick else ("A", "M", "K1"))
     small = [(f"K:{n}", " ".join(t) + " ") for n, t in corpus.small_corpus_tokens(60 if quick else 800)]
     pool = sorted(pool + small, key=lambda x: (len(x[1]), x[1]))
+    # bound the mutation part by program size (characters of the single-space rendering)
+    maxlen = 70 if quick else 160
+    pool = [p for p in pool if len(p[1]) <= maxlen or p[0].startswith("K:")]
     if not quick:
         pass
     mut = nontriv = 0
@@ -123,6 +156,12 @@ def run(tier):
         mut += n
         nontriv += nt
         R.fail_many(fl)
+    dn = 0
+    for n, fl in core.pmap(_dir_work, core.chunked(pool, 50), chunksize=1):
+        dn += n
+        R.fail_many(fl)
+    mut += dn
+    R.set("directive_line_injections", dn)
     if accepted_checked < 100 or mut < 10000:
         R.fail("vacuous", {"accepted_checked": accepted_checked, "mutants": mut}, "too little explored")
     samples = [pool[0][1], pool[len(pool) // 2][1], {"nontokens": NONTOKENS}]
@@ -138,7 +177,8 @@ def run(tier):
     R.set("pool_programs_mutated", len(pool))
     R.set("viable_per_level", levels)
     R.set("bounds", {"tokex_full_vocab_N": 3 if quick else 4, "bracket_vocab_N": NB,
-                     "mutations": "single bracket del/dup/kind-swap; 10 non-token texts at every gap"})
+                     "mutations": "single bracket del/dup/kind-swap; 10 non-token texts at every gap; 12 junk texts on 5 directive forms at every gap (programs <= 12 tokens)",
+                     "max_program_chars_for_mutation": maxlen})
     return R.finish(
         samples,
         "every token string <= N (full vocabulary, 6 contexts; bracket vocabulary to a larger N in 3 "
